@@ -1,3 +1,3 @@
--- This module serves as the root of the `Pandora` library.
--- Import modules here that should be built as part of the library.
-import Pandora.Basic
+-- Root of the `Pandora` library: every property module (theorems) is imported here so that
+-- `lake build Pandora` re-checks all of them.
+import Pandora.Props.C01
